@@ -57,6 +57,7 @@ def render_obj(seq, paths, rng):
              "@quantum public function gb() -> void { h(this.b); } @quantum public function ma() -> bit { bit t = measure this.a; return t; } "
              "@quantum public function mb() -> bit { bit t = measure b; return t; } public function ra() -> void { reset a; } "
              "public function rb() -> void { reset this.b; } }",
+             "function mkH() -> H { H t = new H(); return t; }",
              "function main() -> void {", "  qubit p0;", "  {", "  H o = new H();"]
     pos = {}
     for k, (op, q) in enumerate(seq):
@@ -77,7 +78,11 @@ def render_obj(seq, paths, rng):
         lines.append("  " + s)
         pos[k] = ln
     # the object dies here; a never-measured outer qubit must stay usable afterwards
-    lines += ["  }", "  h(p0);", "}"]
+    lines += ["  }", "  h(p0);"]
+    if rng.random() < 0.5:
+        # a qubit measured through a temporary that is gone by then; later allocations reuse its index and must be usable
+        lines += ["  measure mkH().a;", "  H late = new H(); h(late.a); h(late.b); qubit fresh; x(fresh);"]
+    lines.append("}")
     return "\n".join(lines), pos
 
 
@@ -188,7 +193,7 @@ def run(chk):
 
 
 def _inside_helper(line):
-    return 1 <= line <= 4      # the helper functions occupy lines 1-4: a refusal inside a helper is located there
+    return 1 <= line <= 5      # the helper functions occupy lines 1-4: a refusal inside a helper is located there
 
 
 def replay(path):
